@@ -123,6 +123,9 @@ type Case struct {
 	Dist  []int `json:"dist,omitempty"`
 	NDist int   `json:"ndist,omitempty"`
 	Note  string `json:"note,omitempty"`
+	// ShareLabels: the storage hands out the very same label slices on every call (as a
+	// TSDB head or promql.NewStorageSeries does); they are restored after the run.
+	ShareLabels bool `json:"share_labels,omitempty"`
 	// StoreCtx: the storage honours a cancelled context in every callback.
 	StoreCtx bool `json:"store_ctx,omitempty"`
 }
